@@ -455,7 +455,9 @@ func genSynthHunk(t *rapid.T, merge bool) HunkSpec {
 		}
 		return out
 	}
-	path := func(tail ...string) string { return "[" + strings.Join(append(append([]string{}, prefix...), tail...), ",") + "]" }
+	path := func(tail ...string) string {
+		return "[" + strings.Join(append(append([]string{}, prefix...), tail...), ",") + "]"
+	}
 	if merge {
 		h.Path = path()
 		if gen.Chance(t, "mergeDelete", 35) {
